@@ -242,7 +242,8 @@ def _expand_mutex_groups(G: nx.DiGraph, nodes: list[HyperNode]) -> list[list[set
         elif not isinstance(node, IfElseNode):
             continue
 
-        targets = [t for t in node.targets if t is not END and isinstance(t, str)]
+        # Unknown targets are reported by _validate_gate_targets; skip them here
+        targets = [t for t in node.targets if t is not END and isinstance(t, str) and t in G]
         if len(targets) < 2:
             continue
 
